@@ -9,6 +9,8 @@ REQ = ["New", "Copy", "CopyEmpty", "Add", "Sub", "Mul", "Div", "Normalize", "Mer
 def run(tier, seed):
     ctx = CheckContext("C12", tier, seed)
     ctx.invariants = ["Independence", "WellFormed", "IntHoldsInts"]
+    # sharing between real objects must survive the walk: states are rebuilt by re-executing their history, never deep-copied
+    ctx.rebuild_from_history = True
     cfg = "MC_HistPool_c12q" if tier == "quick" else "MC_HistPool_c12t"
     emb = [("dyadic", 0), ("ulp", 1)] if tier == "quick" else [("dyadic", 0), ("ulp", 1), ("neg", 0)]
     run_pool(ctx, cfg, REQ, FULL_VIEW, emb, budget=60000 if tier == "quick" else 300000)
